@@ -196,7 +196,12 @@ def r6(ctx):
             for t_, pol in (reach_conds(l.body, r_) or []):
                 parts = t_.values if isinstance(t_, ast.BoolOp) and isinstance(t_.op, ast.And) and pol else [t_]
                 for p_ in parts:
-                    if not (pol and src(p_) in allowed):
+                    txt = src(p_)
+                    if not pol and isinstance(p_, ast.Compare) and len(p_.ops) == 1 and isinstance(p_.ops[0], ast.Is) and src(p_.comparators[0]) == 'None':
+                        txt, okpol = f'{src(p_.left)} is not None', True          # passed the `X is None` guard
+                    else:
+                        okpol = pol
+                    if not (okpol and txt in allowed):
                         extra.append(p_)
         ok = bool(rets) and not extra and all(src(r_.value).replace(' ', '') in (f'({rv}.reference_name,{rv}.reference_start)', f'{rv}.reference_name,{rv}.reference_start') for r_ in rets)
         ctx.emit('C08-R6', ok, rel, extra[0] if extra else l, f'{q}: the fallback site is the coordinate of the first read that has one' if ok else
